@@ -166,7 +166,7 @@ class Ctx(object):
         k = r.random()
         if k < 0.2: return self.int_e(d - 1) + self.int_e(d - 1) + [Id(self.pick(['+', '-']))]
         if k < 0.35: return self.int_e(d - 1) + self.int_e(d - 1) + [Id(self.pick(['<', '>', '=']))]
-        if k < 0.45: return self.str_e(d - 1) + self.str_e(d - 1) + [Id(self.pick(['=', '<', '>']))]
+        if k < 0.45: return self.str_e(d - 1) + self.str_e(d - 1) + [Id(self.pick(['=', '=', '=', '=', '=', '=', '<', '>']))]   # < > on strings: Python only
         if k < 0.55: return self.str_e(d - 1) + [Id(self.pick(['text.length$', 'width$', 'num.names$']))]
         if k < 0.65: return self.str_e(d - 1) + [Id('empty$')]
         if k < 0.72: return self.str_e(d - 1) + [Id('missing$')]
